@@ -336,6 +336,12 @@ class Result:
         self.findings.append(finding)
         return finding
 
+    def triage(self, finding, reason):
+        """Conditional triage decided by a rule set (the reason names the rule it depends on)."""
+        if finding in self.findings:
+            self.findings.remove(finding)
+        self.triaged.append((finding, reason))
+
     def oblige(self, rule, construct, ok=True, detail="", nontrivial=True):
         self.obligations.append(Obligation(rule, construct, "discharged" if ok else "violated",
                                            detail, nontrivial))
@@ -401,7 +407,7 @@ def run_check(prop, tier, rule_fn, replay=None):
     for e in kf.get("findings", []):
         if prop in e.get("properties", []):
             known[e["key"]] = e
-    violations, knowns, triaged = [], [], []
+    violations, knowns, triaged = [], [], list(res.triaged)
     for f in res.findings:
         t = table.get(f.key)
         if t is not None and (t.get("properties") is None or prop in t["properties"]):
